@@ -174,7 +174,9 @@ impl Config {
             State::Grep(GrepType::Ripgrep, _, _, _) => &self.classic_grep_header_style,
             State::HunkHeader(_, _, _, _) => &self.hunk_header_style,
             State::SubmoduleLog => &self.file_style,
-            _ => delta_unreachable("Unreachable code reached in get_style."),
+            // States without a style of their own. This is reachable via should_handle() for
+            // 'diff -u' input, where header lines are recognised in any state.
+            _ => &self.null_style,
         }
     }
 
